@@ -53,6 +53,9 @@ func (c faultCase) modeName() string {
 	return c.mode.String()
 }
 
+// lruCacheSize is the small v1 key cache configuration (keystore.InfiniteCacheSize = 0 is the default and the main configuration).
+const lruCacheSize = 8
+
 var lockOps = map[string]bool{"Lock": true, "RLock": true, "Unlock": true, "RUnlock": true}
 
 // casesFor enumerates the fault modes of one recorded call.
@@ -176,6 +179,19 @@ func Run(r *ev.Run) {
 			jobs = append(jobs, job{kind: "v1", noLinks: true, hist: h, op: op, cache: keystore.InfiniteCacheSize})
 		}
 	}
+	// v1 with a small LRU cache (8 entries: fewer than the keys the workload reads, so entries are evicted while the handle lives):
+	// what the handle that saw an error return hands out is compared with the storage (checkSameHandleAgainstStorage)
+	for _, h := range hs {
+		for _, op := range ops {
+			if op.only == "v2" {
+				continue
+			}
+			if !r.Thorough() && !(h.name == "other-clients" && !op.thorough && (op.kind == kGenerate || op.kind == kSave || op.kind == kDestroy)) {
+				continue
+			}
+			jobs = append(jobs, job{kind: "v1", hist: h, op: op, cache: lruCacheSize})
+		}
+	}
 	if r.Thorough() {
 		// v1 with the cache switched off (the same-handle probe then reads the disk) on the key-pair operations
 		for _, h := range hs {
@@ -265,6 +281,8 @@ func Run(r *ev.Run) {
 	r.RequireAtLeast("fault_runs_fired", int64(r.Pick(1000, 4000)))
 	r.RequireAtLeast("crash_snapshots_probed", 500)
 	r.RequireAtLeast("error_returns_probed_same_handle", 200)
+	r.RequireAtLeast("error_returns_probed_same_handle_lru_cache", 100)
+	r.RequireAtLeast("same_handle_target_entries_compared_with_storage", 500)
 	r.RequireAtLeast("torn_writes", 100)
 	r.RequireAtLeast("retry_succeeded", 500)
 	r.RequireAtLeast("outcome_target_old", 100)
